@@ -111,6 +111,69 @@ func (r *clRunner) arrive(tok, amount int64) (status int64, seen int64, rq *clRe
 	}
 }
 
+// burst starts k requests of one source together (amount 1), holds every admitted one inside the handler until all k
+// are decided, then lets them finish. Returns the number admitted and the largest concurrency seen by a handler.
+func (r *clRunner) burst(tok int64, k int) (admitted int64, maxSeen int64, problem string) {
+	start := make(chan struct{})
+	type res struct {
+		rq   *clReq
+		code int
+	}
+	done := make(chan res, k)
+	var rqs []*clReq
+	for i := 0; i < k; i++ {
+		rq := &clReq{tok: tok, amount: 1, release: make(chan bool, 1), done: make(chan int, 1)}
+		rqs = append(rqs, rq)
+		req := httptest.NewRequest(http.MethodGet, "http://example.com/", nil)
+		req.Header.Set("X-Source", strconv.FormatInt(tok, 10))
+		req.Header.Set("X-Amount", "1")
+		req = req.WithContext(contextWith(req, rq.release))
+		rec := httptest.NewRecorder()
+		go func() {
+			defer func() {
+				if e := recover(); e != nil {
+					done <- res{rq, -1}
+				}
+			}()
+			<-start
+			r.cl.ServeHTTP(rec, req)
+			done <- res{rq, rec.Code}
+		}()
+	}
+	close(start)
+	decided, rejected := 0, 0
+	timeout := time.After(10 * time.Second)
+	for decided < k {
+		select {
+		case cur := <-r.entered:
+			admitted++
+			decided++
+			if cur > maxSeen {
+				maxSeen = cur
+			}
+		case d := <-done:
+			decided++
+			rejected++
+			if d.code != 429 {
+				problem = fmt.Sprintf("burst request answered %d", d.code)
+			}
+		case <-timeout:
+			return admitted, maxSeen, "burst did not settle"
+		}
+	}
+	for _, rq := range rqs {
+		rq.release <- false
+	}
+	for i := int64(0); i < admitted; i++ {
+		select {
+		case <-done:
+		case <-time.After(10 * time.Second):
+			return admitted, maxSeen, "admitted burst requests did not finish"
+		}
+	}
+	return admitted, maxSeen, problem
+}
+
 func (r *clRunner) finish(rq *clReq, panics bool) int {
 	rq.release <- panics
 	select {
@@ -142,6 +205,8 @@ func (c *connlimitComp) Gen(rng *rand.Rand, idx int, tier string, targeted bool)
 		switch {
 		case r < 3:
 			h.Ops = append(h.Ops, []int64{2})
+		case r < 9 || (targeted && r < 30):
+			h.Ops = append(h.Ops, []int64{3, int64(rng.Intn(nsrc)), int64(2 + rng.Intn(14))})
 		case r < 60 || len(inflight) == 0:
 			tok := int64(rng.Intn(nsrc))
 			amount := int64(1)
@@ -249,6 +314,33 @@ func (c *connlimitComp) Run(h *hlib.History) ([]hlib.Mon, bool) {
 				mons = append(mons, hlib.Mon{Prop: "C04", Step: step, Msg: fmt.Sprintf("finish(panic=%v) of source %d ended with %d", panics, tok, code)})
 			}
 			h.Obs = append(h.Obs, []int64{})
+		case len(op) == 3 && op[0] == 3:
+			tok, k := op[1], op[2]
+			if k < 0 || k > 64 {
+				return nil, false
+			}
+			admitted, maxSeen, problem := r.burst(tok, int(k))
+			h.Obs = append(h.Obs, []int64{admitted})
+			free := max - cur[tok]
+			if free < 0 {
+				free = 0
+			}
+			want := k
+			if free < want {
+				want = free
+			}
+			if problem != "" {
+				mons = append(mons, hlib.Mon{Prop: "C04", Step: step, Msg: "burst: " + problem})
+			}
+			if unit && maxSeen > max && admitted > 0 {
+				mons = append(mons, hlib.Mon{Prop: "C04", Step: step, Msg: fmt.Sprintf("%d requests of source %d arriving together: a handler saw %d inside, max %d", k, tok, maxSeen, max)})
+			}
+			if admitted > want {
+				mons = append(mons, hlib.Mon{Prop: "C04", Step: step, Msg: fmt.Sprintf("%d requests of source %d arriving together with %d of %d in flight: %d admitted, only %d slots free", k, tok, cur[tok], max, admitted, free)})
+			}
+			if admitted < want {
+				mons = append(mons, hlib.Mon{Prop: "C04", Step: step, Msg: fmt.Sprintf("%d requests of source %d arriving together with %d of %d in flight: only %d admitted although %d slots were free", k, tok, cur[tok], max, admitted, free)})
+			}
 		case len(op) == 1 && op[0] == 2:
 			status, _, rq := r.arrive(-1, 1)
 			if rq != nil {
@@ -292,7 +384,7 @@ func (c *connlimitComp) solo(h *hlib.History, tok int64) ([]int64, bool) {
 	var inflight []*clReq
 	var out []int64
 	for _, op := range h.Ops {
-		if len(op) < 3 || op[1] != tok {
+		if len(op) < 3 || op[1] != tok || op[0] == 3 {
 			continue
 		}
 		if op[0] == 0 {
@@ -326,6 +418,8 @@ func (c *connlimitComp) Describe(h *hlib.History) interface{} {
 			s = fmt.Sprintf("Arrive(src=%d,amount=%d)", op[1], op[2])
 		case 1:
 			s = fmt.Sprintf("Finish(src=%d,amount=%d,panic=%v)", op[1], op[2], op[3] != 0)
+		case 3:
+			s = fmt.Sprintf("Burst(src=%d,k=%d)", op[1], op[2])
 		default:
 			s = "NoSource"
 		}
